@@ -511,7 +511,7 @@ func gatherVsRestart(kind string) zzmc.Scenario {
 			})
 			gatherAfterRestart := false
 			if ownershipJudged() {
-				zzmc.OwnStart("*ice.Agent", "taskloop.go:")
+				zzmc.OwnStart("*ice.Agent", "taskloop.go:", "*ice.CandidatePair", "*ice.candidateBase")
 			}
 			s.Go("G", func() {
 				gatherAfterRestart = restartReturned // then the cycle belongs to the new generation and is legitimate
@@ -624,7 +624,7 @@ func gatherVsClose(kind string) zzmc.Scenario {
 				}
 			})
 			if ownershipJudged() {
-				zzmc.OwnStart("*ice.Agent", "taskloop.go:")
+				zzmc.OwnStart("*ice.Agent", "taskloop.go:", "*ice.CandidatePair", "*ice.candidateBase")
 			}
 			s.Go("G", func() { gerr = gw.a.GatherCandidates() })
 			s.Go("C", func() {
@@ -705,7 +705,7 @@ func gatherVsGather(withRestart bool) zzmc.Scenario {
 			})
 			res := map[string]string{}
 			if ownershipJudged() {
-				zzmc.OwnStart("*ice.Agent", "taskloop.go:")
+				zzmc.OwnStart("*ice.Agent", "taskloop.go:", "*ice.CandidatePair", "*ice.candidateBase")
 			}
 			for _, n := range []string{"G1", "G2"} {
 				s.Go(n, func() { r := fmt.Sprint(gw.a.GatherCandidates()); csRec(func() { res[n] = r }) })
